@@ -1,14 +1,31 @@
 #!/bin/bash
-# import round-3 deliverables (/tmp/seed3_Cxx/{A,B}) as seeded/Cxx-{E,F}, confirm them in a scratch
-# worktree and run the target property's quick check against each (patching /repo, then undoing it)
+# import round-3 deliverables (/tmp/seed3_Cxx/{A,B}) as seeded/Cxx-{E,F}; confirm them in scratch
+# worktrees (4 at a time); then run the target property's quick check against each (patching /repo,
+# then undoing it) one after the other
 cd /verif
+ids=()
 for prop in "$@"; do
   for ab in A:E B:F; do
     src=/tmp/seed3_$prop/${ab%:*}; id=$prop-${ab#*:}
     [ -f $src/patch.diff ] || { echo "=== $id: no deliverable"; continue; }
     mkdir -p seeded/$id; cp $src/patch.diff $src/demo.rs $src/README.md seeded/$id/ 2>/dev/null
-    [ -f /tmp/seed3_$prop/PREEXISTING.md ] && cp /tmp/seed3_$prop/PREEXISTING.md seeded/$id/../$prop-PREEXISTING-round3.md
-    echo "=== $id confirm"; python3 tools/seed_eval.py confirm /verif/seeded/$id | python3 -c "import json,sys;d=json.load(sys.stdin);print({k:d.get(k) for k in ['applies','suite_passes','demo_with_patch_fails','demo_without_patch_passes','confirmed']})"
-    echo "=== $id detect $prop"; python3 tools/seed_eval.py detect /verif/seeded/$id $prop | python3 -c "import json,sys;d=json.load(sys.stdin);print({k:(v.get('exit'),v.get('violations'),[x[:200] for x in v.get('first_keys',[])[:1]]) if isinstance(v,dict) else v for k,v in d.items()})"
+    ids+=($id)
   done
+  [ -f /tmp/seed3_$prop/PREEXISTING.md ] && cp /tmp/seed3_$prop/PREEXISTING.md seeded/PREEXISTING-round3-$prop.md
+done
+confirm_one() {
+  id=$1; slot=$2
+  SEED_EVAL_TARGET=/tmp/seed_eval_target_$slot python3 tools/seed_eval.py confirm /verif/seeded/$id > .scratch/confirm_$id.json 2>&1
+  python3 -c "import json,sys;d=json.load(open('.scratch/confirm_$id.json'));print('$id confirm', {k:d.get(k) for k in ['applies','suite_passes','demo_with_patch_fails','demo_without_patch_passes','confirmed']})"
+}
+i=0
+for id in "${ids[@]}"; do
+  confirm_one $id $((i % 4)) &
+  i=$((i+1))
+  if [ $((i % 4)) -eq 0 ]; then wait; fi
+done
+wait
+for id in "${ids[@]}"; do
+  prop=${id%-*}
+  echo "=== $id detect $prop"; python3 tools/seed_eval.py detect /verif/seeded/$id $prop | python3 -c "import json,sys;d=json.load(sys.stdin);print({k:(v.get('exit'),v.get('violations'),[x[:200] for x in v.get('first_keys',[])[:1]]) if isinstance(v,dict) else v for k,v in d.items()})"
 done
